@@ -11,6 +11,7 @@ def check(ck):
     H.check_rule_kinds_contribute(ck, "C01.R2")
     H.check_digest_consumes_rules(ck, "C01.R3")
     H.check_descent_complete(ck, "C01.R4")
+    H.check_dotted_names(ck, "C01.R4b")
     check_keying(ck, "C01.R5")
     H.check_enforcement(ck, "C01.R6")
     H.check_version_taint(ck, "C01.R7")
